@@ -491,3 +491,95 @@ Proof.
   - split; [reflexivity|]. right. exists (tot 0 scs). split; [lia|apply chain_I0, Hg].
   - exists ops1, p, ops2. split; [exact E1|]. split; [exact E2|]. split; [exact E3|]. cbn zeta. split; [exact E4|]. split; [exact E5|exact E6].
 Qed.
+
+(* ---- and it ends: the chained stream returns None within (s + 1) polls, s the number of Pending and Item answers scripted before the Ends ---- *)
+Section PassEnds.
+  Variable St : Type.
+  Variable pollf : W St -> nat -> nat -> W St.
+  Variable dropsf : St -> list ev.
+  Variable I : nat -> St -> list (list step) -> Prop.
+  Hypothesis H_poll : forall b w pid np, I b (cs St w) (scripts St w) -> finished St w = false -> dropped St w = false ->
+    let w' := pollf w pid np in dropped St w' = false /\
+    (finished St w' = true \/ (finished St w' = false /\ exists b', b' < b /\ I b' (cs St w') (scripts St w'))).
+  Theorem pass_finishes ops : forall b w, sched ops -> I b (cs St w) (scripts St w) -> finished St w = false -> dropped St w = false -> b < npolls ops ->
+    let w' := p_world St pollf dropsf w ops in finished St w' = true /\ dropped St w' = false.
+  Proof.
+    induction ops as [|o r IH]; intros b w Hs HI Hf Hd Hm; [cbn in Hm; lia|].
+    inversion Hs as [|? ? Ho Hr]; subst. cbn [p_world fold_left].
+    assert (Hfin : forall ops w, sched ops -> finished St w = true -> dropped St w = false ->
+              finished St (p_world St pollf dropsf w ops) = true /\ dropped St (p_world St pollf dropsf w ops) = false).
+    { clear. induction ops as [|o r IH]; intros w Hs Hf Hd; [auto|]. inversion Hs; subst. cbn [p_world fold_left].
+      destruct o; try contradiction; try (cbn [p_step]; rewrite Hf; cbn [orb]; apply IH; auto).
+      destruct (fire_frame St pollf dropsf w c k) as (_ & _ & F & D). apply IH; auto; congruence. }
+    destruct (is_poll o) eqn:Hp.
+    - destruct (poll_is St pollf dropsf w o Hp Hf Hd) as (pid & np & E). rewrite E.
+      destruct (H_poll b w pid np HI Hf Hd) as [D [F|(F & b1 & Hb1 & HI')]]; [apply Hfin; auto|].
+      apply (IH b1); auto. unfold npolls in Hm |- *. cbn [filter] in Hm. rewrite Hp in Hm. cbn in Hm. lia.
+    - destruct o; try discriminate; try contradiction. destruct (fire_frame St pollf dropsf w c k) as (A & B & F & D).
+      apply (IH b); auto; [rewrite A, B; exact HI|congruence|congruence].
+  Qed.
+End PassEnds.
+
+Fixpoint steps_before_end (sc: list step) : nat :=
+  match sc with [] => 0 | s :: rest => match answer s with APend | AItem _ => S (steps_before_end rest) | _ => 0 end end.
+Definition stot (idx: nat) (sc: list (list step)) : nat := list_sum (map (fun i => steps_before_end (nth i sc [])) (seq idx (length sc - idx))).
+Lemma stot_unfold idx sc : idx < length sc -> stot idx sc = steps_before_end (nth idx sc []) + stot (S idx) sc.
+Proof. intros H. unfold stot. replace (length sc - idx) with (S (length sc - S idx)) by lia. reflexivity. Qed.
+Lemma stot_upd_lt idx sc j x : j < idx -> stot idx (upd sc j x) = stot idx sc.
+Proof. intros H. unfold stot. rewrite upd_length. f_equal. apply map_ext_in. intros i Hi. apply in_seq in Hi. rewrite nth_upd_other by lia. reflexivity. Qed.
+Lemma stot_upd_at idx sc x : idx < length sc -> stot idx (upd sc idx x) = steps_before_end x + stot (S idx) sc.
+Proof. intros H. rewrite stot_unfold by (rewrite upd_length; exact H). rewrite nth_upd_same by exact H. rewrite stot_upd_lt by lia. reflexivity. Qed.
+
+Definition I_chain2 (b: nat) (s: cst) (sc: list (list step)) : Prop :=
+  c_n s = length sc /\ c_idx s <= c_n s /\ (forall i, c_idx s <= i -> i < length sc -> goods (nth i sc []) = true) /\ stot (c_idx s) sc <= b.
+
+Lemma chain_loop_ends fuel : forall b (w: W cst) pid, I_chain2 b (cs _ w) (scripts _ w) -> S (c_n (cs _ w) - c_idx (cs _ w)) <= fuel ->
+  finished _ w = false -> dropped _ w = false ->
+  let w' := chain_loop fuel w pid in dropped _ w' = false /\
+  (finished _ w' = true \/ (finished _ w' = false /\ exists b', b' < b /\ I_chain2 b' (cs _ w') (scripts _ w'))).
+Proof.
+  induction fuel as [|f IH]; intros b w pid (Hn & Hle & Hg & Ht) Hfu Hf Hd; [lia|]. cbn [chain_loop].
+  destruct (c_idx (cs cst w) =? c_n (cs cst w)) eqn:Ei.
+  - unfold finish_p. cbn [set_flags finished dropped emit]. split; [exact Hd|left; reflexivity].
+  - apply Nat.eqb_neq in Ei. set (idx := c_idx (cs cst w)) in *.
+    assert (Hi : idx < length (scripts _ w)) by lia.
+    pose proof (poll_direct_live w idx pid) as Hs. destruct (poll_direct cst w idx pid) as [w1 a]. destruct Hs as (A & B & C & [u Hu] & L & E).
+    pose proof (Hg idx (Nat.le_refl _) Hi) as Hgi.
+    destruct (nth idx (scripts _ w) []) as [|x rest] eqn:En; [discriminate|]. destruct E as [-> E]. cbn [goods] in Hgi.
+    pose proof (stot_unfold idx (scripts _ w) Hi) as Hun. rewrite En in Hun. cbn [steps_before_end] in Hun.
+    assert (Hoth : forall i, idx <= i -> i < length (scripts _ w1) -> i <> idx -> goods (nth i (scripts _ w1) []) = true).
+    { intros i H1 H2 H3. rewrite E, nth_upd_other by auto. apply Hg; [exact H1|]. rewrite E, upd_length in H2. exact H2. }
+    assert (Hstay : forall w2, cs _ w2 = cs _ w1 -> scripts _ w2 = scripts _ w1 -> goods rest = true ->
+              steps_before_end (x :: rest) = S (steps_before_end rest) ->
+              exists b', b' < b /\ I_chain2 b' (cs _ w2) (scripts _ w2)).
+    { intros w2 E1 E2 Hgr Hst. exists (steps_before_end rest + stot (S idx) (scripts _ w)). fold idx in Ht. split; [cbn [steps_before_end] in Hst; lia|].
+      unfold I_chain2. rewrite E1, E2, A. fold idx. split; [rewrite L; exact Hn|]. split; [exact Hle|]. split.
+      - intros i H1 H2. destruct (Nat.eq_dec i idx) as [->|Hne]; [rewrite E, nth_upd_same by exact Hi; exact Hgr|apply Hoth; auto].
+      - rewrite E, stot_upd_at by exact Hi. lia. }
+    destruct (answer x) as [|r|v| |] eqn:Ex; try discriminate.
+    + cbn [finished dropped emit]. split; [congruence|]. right. split; [congruence|]. apply Hstay; auto. cbn [steps_before_end]. rewrite Ex. reflexivity.
+    + unfold finish_p. cbn [finished dropped emit]. split; [congruence|]. right. split; [congruence|]. apply Hstay; auto. cbn [steps_before_end]. rewrite Ex. reflexivity.
+    + match goal with |- context[chain_loop f ?W pid] => set (w2 := W) end.
+      assert (HI2 : I_chain2 b (cs _ w2) (scripts _ w2)).
+      { unfold w2, I_chain2. cbn [cs scripts set_cs c_idx c_n]. fold idx. split; [rewrite L; exact Hn|]. split; [lia|]. split.
+        - intros i H1 H2. apply Hoth; lia.
+        - rewrite E, stot_upd_lt by lia. fold idx in Ht. replace (idx + 1) with (S idx) by lia. lia. }
+      apply (IH b w2 pid HI2); unfold w2; cbn [cs set_cs c_idx c_n finished dropped]; [fold idx; lia|congruence|congruence].
+Qed.
+Lemma chain_poll_ends : forall b (w: W cst) pid np, I_chain2 b (cs _ w) (scripts _ w) -> finished _ w = false -> dropped _ w = false ->
+  let w' := chain_poll w pid np in dropped _ w' = false /\
+  (finished _ w' = true \/ (finished _ w' = false /\ exists b', b' < b /\ I_chain2 b' (cs _ w') (scripts _ w'))).
+Proof.
+  intros b w pid np HI Hf Hd. unfold chain_poll. set (w0 := begin_p cst w pid np).
+  apply (chain_loop_ends (S (c_n (cs cst w0) - c_idx (cs cst w0))) b w0 pid); [exact HI|apply Nat.le_refl|exact Hf|exact Hd].
+Qed.
+
+(* chain over inputs each scripted (Pending | Item)* then End, zero inputs included: under EVERY schedule of waker invocations and polls with more than
+   s polls - s the number of Pending and Item answers scripted before the Ends - the chained stream has returned None (and C10 says what came before it) *)
+Theorem chain_ends scs ops : (forall i, i < length scs -> goods (nth i scs []) = true) -> sched ops -> stot 0 scs < npolls ops ->
+  let w := chain_world scs ops in finished _ w = true /\ dropped _ w = false.
+Proof.
+  intros Hg Hs Hk. unfold chain_world. fold (chain_w0 scs).
+  apply (pass_finishes cst chain_poll c_drops I_chain2 chain_poll_ends ops (stot 0 scs) (chain_w0 scs) Hs); auto.
+  unfold chain_w0, I_chain2. cbn [cs scripts mk_world c_idx c_n]. split; [reflexivity|]. split; [lia|]. split; [intros i _ Hi; apply Hg, Hi|apply Nat.le_refl].
+Qed.
